@@ -153,3 +153,136 @@ Fixpoint guard_C15_zero_count_seq (p : pt) (vals : list (name * Z)) (V : list na
 Definition update_all (ups : list (list (name * Z))) (t : prog) : prog := fold_left (fun t us => update us t) ups t.
 Definition override_all (ups : list (list (name * Z))) (vals : list (name * Z)) : list (name * Z) :=
   fold_left (fun v us => override us v) ups vals.
+
+(* ------------------------------------------------------------------------------------------------------------ *)
+(* Tabor tables: cells, what the recorded positions address, what a table state denotes *)
+Definition cntval (r : rep) : Z := match int_of_rep r with Some v => v | None => -1 end.
+(* the value update_volatile_dependencies returns for a recorded count *)
+Definition newval (us : list (name * Z)) (r : rep) : Z := cntval (upd_rep us r).
+Definition shape_tabs (tabs : list (list tent)) := map (map (fun e => (te_wf e, te_vol e))) tabs.
+Definition mod_pos (m : tmod) := match m with TMod p _ _ => p end.
+Definition mod_count (m : tmod) := match m with TMod _ c _ => c end.
+Definition mod_elem (m : tmod) := match m with TMod _ _ e => e end.
+
+Inductive cell := CAdv (a : nat) | CTab (k q : nat).
+Definition cell_eqb (x y : cell) : bool :=
+  match x, y with
+  | CAdv a, CAdv b => Nat.eqb a b
+  | CTab k q, CTab k' q' => Nat.eqb k k' && Nat.eqb q q'
+  | _, _ => false
+  end.
+
+(* the memory cell a recorded position resolves to (sequencer positions go through the advanced table) *)
+Definition cell_of (adv : list (Z * nat)) (p : tpos) : option cell :=
+  match p with
+  | PAdv a => Some (CAdv a)
+  | PSeqPos a q => match nth_error adv a with Some (_, el) => Some (CTab (pred el) q) | None => None end
+  end.
+
+Definition read (adv : list (Z * nat)) (tabs : list (list tent)) (c : cell) : option Z :=
+  match c with
+  | CAdv a => match nth_error adv a with Some x => Some (fst x) | None => None end
+  | CTab k q => match nth_error tabs k with
+                | Some tb => match nth_error tb q with Some e => Some (te_count e) | None => None end
+                | None => None
+                end
+  end.
+
+(* the element (table number / waveform index) stored next to the count of a cell *)
+Definition elem_at (adv : list (Z * nat)) (tabs : list (list tent)) (c : cell) : option nat :=
+  match c with
+  | CAdv a => match nth_error adv a with Some x => Some (snd x) | None => None end
+  | CTab k q => match nth_error tabs k with
+                | Some tb => match nth_error tb q with Some e => Some (N.to_nat (te_wf e)) | None => None end
+                | None => None
+                end
+  end.
+
+Definition same_cell (adv : list (Z * nat)) (p p' : tpos) : bool :=
+  match cell_of adv p, cell_of adv p' with
+  | Some c, Some c' => cell_eqb c c'
+  | _, _ => false
+  end.
+
+(* guard_C15_shared_table: recorded positions that address the same cell agree on the new value (positions that
+   address pairwise distinct cells are the special case; cf. the known finding C15-tabor-shared-volatile-table) *)
+Fixpoint cells_coherent (us : list (name * Z)) (adv : list (Z * nat)) (ps : list (tpos * rep)) : bool :=
+  match ps with
+  | [] => true
+  | (p, r) :: rest =>
+      forallb (fun pr => negb (same_cell adv p (fst pr)) || (newval us r =? newval us (snd pr))) rest
+      && cells_coherent us adv rest
+  end.
+Fixpoint cells_distinct (adv : list (Z * nat)) (ps : list (tpos * rep)) : bool :=
+  match ps with
+  | [] => true
+  | (p, _) :: rest => forallb (fun pr => negb (same_cell adv p (fst pr))) rest && cells_distinct adv rest
+  end.
+Definition guard_C15_shared_table (us : list (name * Z)) (st : tstate) : bool :=
+  cells_coherent us (t_adv st) (t_pos st).
+
+(* what is observable of a table entry / a table state (this is what the harness reads from TaborProgram) *)
+Definition tent_obs (e : tent) : Z * N * bool :=
+  (te_count e, te_wf e, match te_vol e with Some _ => true | None => false end).
+Definition tab_view (st : tstate) : list (Z * nat) * list (list (Z * N * bool)) * list N * list tpos :=
+  (t_adv st, map (map tent_obs) (t_tabs st), t_wfs st, map fst (t_pos st)).
+
+(* per advanced entry: its count and the observable entries of the table it points to *)
+Definition expand (st : tstate) : list (Z * list (Z * N * bool)) :=
+  map (fun ae => (fst ae, map tent_obs (nth (pred (snd ae)) (t_tabs st) []))) (t_adv st).
+
+(* the same, read off the list of sequence-table loops that is parsed (wfs: the final waveform list) *)
+Definition wf_of (t : prog) : option N := match t with Node _ _ w _ => w end.
+Definition wf_index (wfs : list N) (c : prog) : N :=
+  match wf_of c with
+  | Some w => match index_of N.eqb w wfs with Some k => N.of_nat k | None => 0%N end
+  | None => 0%N
+  end.
+Definition ents_of (wfs : list N) (tl : prog) : list (Z * N * bool) :=
+  map (fun c => (cntval (rep_of c), wf_index wfs c, is_vol (rep_of c))) (kids tl).
+Definition denote_tabs (wfs : list N) (tabs : list prog) : list (Z * list (Z * N * bool)) :=
+  map (fun tl => (cnt tl, ents_of wfs tl)) tabs.
+
+(* the volatile positions of a list of sequence-table loops, in the order parse_aseq_program records them *)
+Fixpoint entry_positions (a q : nat) (ch : list prog) : list (tpos * rep) :=
+  match ch with
+  | [] => []
+  | c :: r => (if is_vol (rep_of c) then [(PSeqPos a q, rep_of c)] else []) ++ entry_positions a (S q) r
+  end.
+Fixpoint positions_of (a : nat) (tabs : list prog) : list (tpos * rep) :=
+  match tabs with
+  | [] => []
+  | tl :: r => entry_positions a 0 (kids tl) ++ (if is_vol (rep_of tl) then [(PAdv a, rep_of tl)] else [])
+               ++ positions_of (S a) r
+  end.
+
+(* the waveform list after parsing (depends on the structure only) *)
+Fixpoint wfs_after (wfs : list N) (ch : list prog) : list N :=
+  match ch with
+  | [] => wfs
+  | c :: r => wfs_after (match wf_of c with
+                         | Some w => match index_of N.eqb w wfs with Some _ => wfs | None => wfs ++ [w] end
+                         | None => wfs
+                         end) r
+  end.
+
+(* same decisions *)
+Fixpoint list_nat_eqb (a b : list nat) : bool :=
+  match a, b with
+  | [], [] => true
+  | x :: a', y :: b' => Nat.eqb x y && list_nat_eqb a' b'
+  | _, _ => false
+  end.
+Definition dec_eqb (a b : dec) : bool :=
+  match a, b with
+  | DRoot x, DRoot y => Bool.eqb x y
+  | DSkip, DSkip | DMergePrev, DMergePrev | DMergeNext, DMergeNext | DExtPrev, DExtPrev | DExtNext, DExtNext => true
+  | DUnroll u s, DUnroll u' s' => Bool.eqb u u' && list_nat_eqb s s'
+  | _, _ => false
+  end.
+Fixpoint trace_eqb (a b : list dec) : bool :=
+  match a, b with
+  | [], [] => true
+  | x :: a', y :: b' => dec_eqb x y && trace_eqb a' b'
+  | _, _ => false
+  end.
